@@ -11,6 +11,9 @@ RULES = {
          (r"UNION", "the unparser flattens nested UNION / UNION ALL (or renders EXCEPT/INTERSECT ALL inputs) losing the inner set quantifier / producing unparseable text", "datafusion/sql/src/unparser/plan.rs (Union / Distinct handling)", "not attempted in this session"),
          (r"IS TRUE", "the unparser drops the parentheses of `(NOT x) IS TRUE` (operator precedence of IS TRUE/IS FALSE over NOT)", "datafusion/sql/src/unparser/expr.rs", "not attempted in this session"),
          (r".*", "unparser output is invalid SQL, does not parse in the target dialect, or is not equivalent to the plan (thorough-tier grammar)", "datafusion/sql/src/unparser", "not attempted in this session")],
+ "C41": [(r"join_on", "EXECUTE of a prepared statement with a NULL argument inside a join condition (`JOIN u ON (t.a + $1) = u.a`, EXECUTE p(NULL)) returns the cross product instead of no rows (reproduced with datafusion-cli)", "PREPARE/EXECUTE path: datafusion/core/src/execution/context (execute_prepared) + optimizer handling of the substituted NULL in join keys", "found in the last hours by the thorough tier; not attempted"),
+         (r"win:", "a placeholder shared by two window-function arguments (ntile($1), nth_value(b, $1)) is refused at execution (`only support Literal types`) although each alone works", "datafusion/expr/src/expr_rewriter / window function argument literal check after parameter substitution", "found in the last hours by the thorough tier; not attempted"),
+         (r".*", "a placeholder used at two positions of a prepared statement binds inconsistently: `coalesce(nullif(a,$1),b)` in GROUP BY and select list, or `(a = $1)` next to `a NOT IN ($1, NULL)` with a declared BIGINT parameter over an INT column, return rows different from the literal query (reproduced with datafusion-cli: PREPARE p(BIGINT) AS SELECT (a = $1) IS TRUE ...; EXECUTE p(1) gives TRUE for every row)", "PREPARE/EXECUTE path: parameter type inference / substitution (LogicalPlan::with_param_values, Expr::infer_placeholder_types)", "found in the last hours by the thorough tier; not attempted")],
  "C33": [(r".*", "float IN lists and CASE literal lookup compare by bits (-0.0 vs 0.0) while '=' normalises signed zero", "datafusion/physical-expr/src/expressions/{in_list,case}", "unit tests pin bit comparison")],
  "C47": [(r"Timestamp", "timestamp literal narrowing in try_cast_literal_to_type truncates (CAST(x AS Timestamp(ms)) = -1ms becomes x = 0s)", "datafusion/expr-common/src/casts.rs", "documented as allowed; tests pin truncation"),
          (r".*", "float IN compares by bits (-0.0 vs 0.0) while '=' normalises signed zero", "datafusion/physical-expr/src/expressions/in_list", "unit tests pin bit comparison")],
